@@ -4,6 +4,7 @@
 From Coq Require Import NArith List Bool.
 Require Import SDS.Model.Mach SDS.Model.Bits SDS.Model.Raw SDS.Model.IntVec SDS.Model.BitVec SDS.Model.Ser.
 Require Import SDS.Spec.Stream SDS.Check.Common.
+Require SDS.Model.RL.      (* qualified *)
 Import ListNotations.
 Open Scope N_scope.
 
@@ -18,7 +19,8 @@ Inductive recipe :=
 | RIv (len width : N) (words : list N)      (* items packed by the harness on its own *)
 | RRank (len : N) (words : list N)          (* RankSupport::new of that bitvector *)
 | RSel (compl : bool) (len : N) (words : list N)
-| RBV (len : N) (words : list N) (subset : N).
+| RBV (len : N) (words : list N) (subset : N)
+| RRL (len : N) (runs : list (N * N)).     (* RLBuilder: try_set(start, length).unwrap() per run, set_len(len), RLVector::from *)
 
 Definition sp_of (path : N) : selpath := if path =? 0 then Pdep else Portable.
 Definition mode_of (dbg : bool) : mode := if dbg then Debug else Release.
@@ -53,6 +55,14 @@ Fixpoint build (sp : selpath) (m : mode) (t : ty) (r : recipe) : option (interp 
                    end
                | _ => None
                end
+  | TRL => match r with
+           | RRL len runs =>
+               match RL.rl_build m (map (fun p => RL.BTrySet (fst p) (snd p)) runs ++ [RL.BSetLen len]) with
+               | Ok (v, oks) => if forallb (fun x => x) oks then Some v else None
+               | _ => None
+               end
+           | _ => None
+           end
   end.
 
 Definition rs_eqb (a b : rank_support) : bool := nnlist_eqb (rs_samples a) (rs_samples b).
@@ -61,6 +71,16 @@ Definition ss_eqb (a b : select_support) : bool :=
 Definition bv_eqb (a b : bitvec) : bool :=
   (bv_ones a =? bv_ones b) && raw_eqb (bv_data a) (bv_data b) && opt_eqb rs_eqb (bv_rank a) (bv_rank b)
   && opt_eqb ss_eqb (bv_select a) (bv_select b) && opt_eqb ss_eqb (bv_select_zero a) (bv_select_zero b).
+
+Definition si_eqb (a b : RL.sindex) : bool :=
+  (RL.si_num_values a =? RL.si_num_values b) && (RL.si_divisor a =? RL.si_divisor b)
+  && iv_eqb (RL.si_samples a) (RL.si_samples b).
+(* all seven fields: the three rebuilt sample indexes included *)
+Definition rl_eqb (a b : RL.rlvec) : bool :=
+  (RL.rl_len a =? RL.rl_len b) && (RL.rl_ones a =? RL.rl_ones b)
+  && si_eqb (RL.rl_rank_index a) (RL.rl_rank_index b) && si_eqb (RL.rl_select_index a) (RL.rl_select_index b)
+  && si_eqb (RL.rl_select_zero_index a) (RL.rl_select_zero_index b)
+  && iv_eqb (RL.rl_samples a) (RL.rl_samples b) && iv_eqb (RL.rl_data a) (RL.rl_data b).
 
 Fixpoint val_eqb (t : ty) : interp t -> interp t -> bool :=
   match t return interp t -> interp t -> bool with
@@ -75,6 +95,7 @@ Fixpoint val_eqb (t : ty) : interp t -> interp t -> bool :=
   | TRank => rs_eqb
   | TSelect => ss_eqb
   | TBitVec => bv_eqb
+  | TRL => rl_eqb
   end.
 
 (* the stream the implementation wrote: whole elements, then (never, if it is right) stray bytes *)
